@@ -394,6 +394,12 @@ func RefPairs(seed int64, n int) []Case {
 		e.Comp("schemas", "Animal", M{"oneOf": L{Ref("schemas", "Cat"), Ref("schemas", "Dog")}, "discriminator": M{"propertyName": "kind"}})
 		e.Op("/t", "post", M{"requestBody": M{"required": true, "content": JSONContent(Ref("schemas", "Animal"))}})
 		fx("fixed-inline-oneof-request-body", e.Root, InlineAll(e.Root, map[string]bool{"schemas": true, "schemas-everywhere": true}), "inline-all-everywhere")
+		g := NewDoc("fixed")
+		g.Comp("schemas", "Tags", Arr(Prim("string", "")))
+		g.Comp("schemas", "Page", Obj([]string{"tags"}, M{"tags": Ref("schemas", "Tags"), "more": Ref("schemas", "Tags"), "n": Prim("integer", "")}))
+		g.Op("/t", "get", M{"responses": M{"200": M{"description": "ok", "content": JSONContent(Ref("schemas", "Page"))},
+			"default": M{"description": "other", "content": JSONContent(Obj(nil, M{"tags": Ref("schemas", "Tags")}))}}})
+		fx("fixed-array-component-property", g.Root, InlineAll(g.Root, map[string]bool{"schemas": true, "schemas-everywhere": true}), "inline-all-everywhere")
 		fx("fixed-nested-inline-allof", c.Root, InlineAll(c.Root, map[string]bool{"schemas": true, "schemas-everywhere": true}), "inline-all-everywhere")
 	}
 	for _, b := range bases {
